@@ -1219,6 +1219,8 @@ const SOUP_ATOMS: &[&str] = &[
     "\u{feff}", "\u{10ffff}", "\u{e000}", "\u{301}", "|", "#", "@", "{", "}", "quote", "lambda", "define", "if",
     "let", "set!", "define-syntax", "syntax-rules", "...", "_", "else", "=>", "car", "cons", "x", "9223372036854775808",
     "\\x41;", "\\n", "#\\space", "#\\newline", "#\\x41", "#\\λ",
+    // fix c1c04ca: the sign of an exponent belongs to the number token
+    "1e-7", "2.5E+3", ".5e-1", "e-", "E+", "1e-", "1e-x",
 ];
 
 fn depth_ok(text: &str) -> bool {
